@@ -12,6 +12,7 @@ import (
 	"encoding/hex"
 	"errors"
 	"fmt"
+	"sync"
 
 	"berty.tech/go-ipfs-log/entry"
 	idp "berty.tech/go-ipfs-log/identityprovider"
@@ -222,9 +223,14 @@ func (w *e3World) expiredContextOp(op, i int, k *ks.Keystore, id string) {
 
 // tapeRand replaces crypto/rand.Reader during a keystore run: key generation is the one consumer
 // of randomness in the library, and a violation that depends on the bytes of a key must replay.
-type tapeRand struct{ x *xoshiro }
+type tapeRand struct {
+	x  *xoshiro
+	mu sync.Mutex // (tasks of the concurrent keystore world create keys: an edge between creators only)
+}
 
 func (t *tapeRand) Read(p []byte) (int, error) {
+	t.mu.Lock()
+	defer t.mu.Unlock()
 	for i := range p {
 		p[i] = byte(t.x.next() >> 24)
 	}
@@ -235,7 +241,7 @@ var e3IDs = []string{"id0", "id1", "id2", "id3", "id4", "id5", "org1/alice", "or
 
 func RunE3(r *Run) {
 	saved := cryptorand.Reader
-	cryptorand.Reader = &tapeRand{newXoshiro(uint64(r.Choose("key-entropy", 1<<30)))}
+	cryptorand.Reader = &tapeRand{x: newXoshiro(uint64(r.Choose("key-entropy", 1<<30)))}
 	defer func() { cryptorand.Reader = saved }()
 	w := &e3World{r: r, model: map[string][]byte{}, idents: map[string]*idp.Identity{}, ctx: context.Background()}
 	w.d = &simds{Datastore: dssync.MutexWrap(ds.NewMapDatastore()), onFault: func(k string) { r.Fault(k) }}
